@@ -6,6 +6,11 @@ BASE = "cd /repo && go test -mod=mod -json -vet=off -count=1 -timeout 25m ./..."
 
 CLAIMED = {
  # id: (category, text, design_ref, level_note, technique)
+ "C20": ("other",
+  "Narrow structural claim: the one relational clause of the property — 'the reported wet-bulb depression equals dry bulb minus wet bulb' — is decided as a polynomial identity between the values written to the outputs (depression + wet bulb = dry-bulb read, the wet-bulb result being an opaque symbol); an algebraically equal rewrite has the same normal form, so the rule does not freeze the expression's shape. Positivity/monotonicity of the vapour-pressure curve, the ordering dew point <= wet bulb <= dry bulb, monotonicity in humidity and finiteness are properties of transcendental formulae and a 40-step bisection and are NOT decided.",
+  "DESIGN.md section 9.5",
+  "Only one clause of five is decided.",
+  "symbolic polynomial normal forms over go/ssa values"),
  "C11": ("other",
   "Narrow structural claim: the two Muskingum clauses of the property are decided by polynomial normal form on the kernel's SSA (nothing executed): with current inflow, previous inflow and previous outflow set to one symbol Q and no lateral, the routed outflow is identically Q after clearing the common denominator (the three weights sum to one for all k, x, dt), and the quantity carried as previous inflow is the same (upstream + lateral) quantity the first weight multiplies — this found a genuine volume leak of lateral inflow, now fixed. StorageRouting's per-step water balance and S-Q relation, non-negativity, and Lag's delay identity (incl. lags longer than the series) are value/index-arithmetic properties and are NOT decided.",
   "DESIGN.md section 9.5",
@@ -100,7 +105,6 @@ CLAIMED = {
 
 NOT_APPLICABLE = {
  "C15": "equivalence with an external published formulation is a value property over the whole parameter box; no structural necessary condition that would not also fire on an equal rewrite (DESIGN.md section 5)",
- "C20": "monotonicity and bracketing of transcendental formulae are value properties; the one relational clause could only be matched as a frozen expression shape (DESIGN.md section 5)",
 }
 
 PENDING = {}  # filled below: properties whose checker is not yet built in this commit
